@@ -121,7 +121,10 @@ fn private_is_dirty(
             if oldstamp != &newstamp {
                 if newstamp == Stamp::MISSING {
                     log_debug!("{}-- DIRTY (missing)\n", depth);
-                    if f.is_generated() {
+                    // (A BUILDING stamp is not "was stamped": the target's first
+                    // build is still running, or was interrupted, and has not
+                    // produced the file yet.  Leave its record to its builder.)
+                    if f.is_generated() && oldstamp != &Stamp::BUILDING {
                         // previously was stamped and generated, but suddenly missing.
                         // We can safely forget that it is/was a target; if someone
                         // does redo-ifchange on it and it doesn't exist, we'll mark
